@@ -40,5 +40,7 @@ func C08(c *core.Ctx) {
 	}
 	// which declaration a same-named schema is bound to decides which constraints validate it (A-DEDUP)
 	ruleDedup(c)
+	// the list the generator sees is the list the document states: no value dropped, merged or re-typed by the decoder
+	ruleFidelity(c, "enum")
 	c.Floor("families", c.Counts["members"], 70, "family members")
 }
